@@ -16,8 +16,13 @@ def U(name, entry, enforce, **kw):
 
 def units():
     return [
-        U("psf_bump_header_allocation", "h_bump", "psf_bump_header_allocation", defines=["-DUNIT_BUMP"],
-          replace=["psf_log_printf", "verif_pad_contract"], props=["C03", "C16", "C19"]),
+        U("psf_bump_header_allocation", "h_bump", "psf_bump_header_allocation", defines=["-DUNIT_BUMP", "-DREALLOC_KEEPS_OLD_BLOCK"],
+          replace=["verif_pad_contract"], props=["C03", "C19"],
+          # psf_log_printf is variadic: neither its body nor (in this unit) its replacement survives DFCC (measured:
+          # spurious write-set unwinding failure); its body is replaced by a generated no-op, i.e. the parse log is
+          # outside what this unit establishes
+          pre_gi_flags=["--remove-function-body", "psf_log_printf", "--generate-function-body", "psf_log_printf",
+                        "--generate-function-body-options", "nondet-return"]),
         U("header_read", "h_header_read", "header_read"),
         U("header_seek", "h_header_seek", "header_seek", props=["C03", "C14", "C15", "C19"],
           loops={"header_seek": [{"loop_id": 0, "assigns_locals": True,
